@@ -30,7 +30,8 @@ RULE = ("seeded molecules (1..1500 atoms, sizes and bond counts around 999/1000,
         "model (text compared line by line, V2000/V3000/auto), reference CTAB files in foreign styles read by both; "
         "metadata keys from the key grammar, metadata, multi-record SD files and headers serialised and parsed by both; "
         "edit histories on parsed SDFiles (rename/del/header/metadata/molecule/insert) against a list reference and, op by op, "
-        "against the lazy-container model; strings with `$$$$` inside a line; kekulisable aromatic rings through RDKit with "
+        "against the lazy-container model (incl. SDFile(dict) from records of a parsed file); MOLFile set_structure histories with "
+        "rejected calls; metadata value lines beginning with 'M  END'; strings with `$$$$` inside a line; kekulisable aromatic rings through RDKit with "
         "argument-unchanged and call-twice checks; "
         "oracle: write->read on the real code through ctab/MOLFile/SDFile and to_mol/from_mol (RDKit), V2000 column "
         "audit of every written line. non-trivial = molecule with >= 2 atoms or a bond or a charge, a key with >= 2 "
@@ -57,8 +58,9 @@ LEVEL_TEXT = ("Theorems over the character-level model, all inputs, no size boun
               "within 1e-4 + 2*eps (C18_coord_reround; IEEE nearest rounding of numpy/float() is assumed, eps = float64 "
               "parse error); bond/charge/RDKit tables, V2000 reader slices = writer fields and header slices = header fields "
               "as decide obligations on tables regenerated from the source; C18_sdf_lazy_refines: every edit history on a parsed "
-              "SDFile (records/headers/metadata parsed lazily and cached) equals the history on a plain mapping of parsed "
-              "records. Partial: the RDKit bridge (to_mol/from_mol, "
+              "SDFile (records/headers/metadata parsed lazily and cached; item assignment and the dict constructor adopt and "
+              "rename any record: C18_sdfile_adopt) equals the history on a plain mapping of parsed records; "
+              "C18_molfile_set_structure: a rejected set_structure leaves a MOLFile unchanged, an accepted one reads back. Partial: the RDKit bridge (to_mol/from_mol, "
               "conformers) is an external library: tables proved, behaviour tied by the oracle only.")
 LEVEL_NOTE = ("modelled-not-verified: Python float/int formatting and parsing, str methods on ASCII, numpy U2/uint32 stores, "
               "BondList normalisation; RDKit external")
@@ -603,6 +605,9 @@ def _value_lines(rng):
             s = "".join(rng.choice(TEXT) for _ in range(rng.randint(1, 24))).strip(" ")
             if s and rng.random() < 0.12:
                 s = _mid_delim(rng, s)
+            elif rng.random() < 0.10:
+                # a value line that looks like the end of a CTAB (legal: not blank, no '>' / '$$$$' at its start)
+                s = "M  END" + rng.choice(["", " of data", "ING", "  1"])
             if s and not s.startswith(">") and not s.startswith("$$$$"):
                 out.append(s)
                 break
@@ -783,7 +788,49 @@ def _sdf_edit_case(rng):
             break                        # later ops may refer to the inserted record
     if rng.random() < 0.15:
         fields += ["D", "no such record"]
-    return {"kind": "sdf-edit", "ops": ["\t".join(fields)], "records": recs, "edits": ops}
+    ops_line = "\t".join(fields)
+    # a second history: records of the parsed file handed to the SDFile constructor under new names (headers still text
+    # unless edited before), followed by a further edit
+    f2 = ["SE"] + [l for r in recs for l in _record_text_lines(r)] + ["#OPS"]
+    olds = [r["header"]["mol_name"] for r in recs]
+    if rng.random() < 0.5:
+        f2 += ["H", rng.choice(olds), "comments", "touched"]
+    rng.shuffle(olds)
+    olds = olds[:rng.randint(1, len(olds))]
+    used2 = set(r["header"]["mol_name"] for r in recs)
+    pairs = []
+    for o in olds:
+        nw = o if rng.random() < 0.2 else _fresh_name(rng, used2)
+        used2.add(nw)
+        pairs += [nw, o]
+    f2 += ["N", str(len(olds))] + pairs
+    if rng.random() < 0.5:
+        f2 += ["H", pairs[0], "program", "p2"]
+    return {"kind": "sdf-edit", "ops": [ops_line, "\t".join(f2)], "records": recs, "edits": ops}
+
+
+def _sdf_rebuild_case(rng):
+    recs = []
+    used = set()
+    for _ in range(rng.choice([1, 2, 3, 4])):
+        h = _header(rng)
+        h["mol_name"] = _fresh_name(rng, used)
+        used.add(h["mol_name"])
+        recs.append({"header": h, "mol": _small_mol(rng), "md": _metadata(rng, rng.choice([0, 1, 2])), "ver": rng.choice([None, "V3000"])})
+    olds = [r["header"]["mol_name"] for r in recs]
+    rng.shuffle(olds)
+    olds = olds[:rng.randint(1, len(olds))]
+    mapping = []
+    fresh = {}
+    for old in olds:
+        new = old if rng.random() < 0.15 else _fresh_name(rng, used)
+        used.add(new)
+        mapping.append([new, old, rng.choice([None, None, None, "structure", "metadata", "header"])])
+    if rng.random() < 0.3:
+        new = _fresh_name(rng, used)
+        fresh[new] = {"header": _header(rng), "mol": _small_mol(rng), "md": _metadata(rng, 1), "ver": None}
+        mapping.insert(rng.randint(0, len(mapping)), [new, None, None])
+    return {"kind": "sdf-rebuild", "records": recs, "mapping": mapping, "fresh": fresh, "via": rng.choice(["init", "init", "setitem"])}
 
 
 def cases(rng, tier):
@@ -873,10 +920,37 @@ def cases(rng, tier):
         out.append(_sdf_case(rng, rng.choice([1, 2, 3, 5])))
     for _ in range(30 * scale):
         out.append(_sdf_edit_case(rng))
+    for _ in range(25 * scale):
+        out.append(_sdf_rebuild_case(rng))
     # --- MOL files and the RDKit bridge: oracle only
     for _ in range(12 * scale):
         n = rng.choice([1, 2, 5, 12])
-        out.append({"kind": "molfile", "mol": _mol(rng, n, n), "header": _header(rng), "ver": rng.choice([None, "V2000", "V3000"])})
+        hist = []
+        for _ in range(rng.choice([0, 1, 2, 3])):
+            if rng.random() < 0.65:
+                hist.append(["bad", rng.choice(BAD_SET), _small_mol(rng, rng.choice([2, 3]))])
+            else:
+                hist.append(["good", _small_mol(rng), rng.choice([None, "V2000", "V3000"])])
+        c = {"kind": "molfile", "mol": _mol(rng, n, n), "header": _header(rng), "ver": rng.choice([None, "V2000", "V3000"]),
+             "history": hist}
+        specs = [_w_op(c["mol"], c["ver"] or "auto", 0)[2:]]
+        for st in hist:
+            if st[0] == "good":
+                specs.append(_w_op(st[1], st[2] or "auto", 0)[2:])
+            elif st[1] == "coordinate-too-wide":
+                m2 = dict(st[2], coords=[list(x) for x in st[2]["coords"]])
+                m2["coords"][0][1] = _f32(123456.7)
+                specs.append(_w_op(m2, "auto", 0)[2:])
+            elif st[1] == "unknown-version":
+                specs.append(_w_op(st[2], "V4000", 0)[2:])
+            elif st[1] == "bad-default-bond":
+                specs.append(_w_op(st[2], "auto", 4)[2:])
+            elif st[1] == "v2000-too-many-bonds":
+                big = {"elems": ["C"] * 46, "charges": [0] * 46, "coords": [[0.0, 0.0, 0.0]] * 46,
+                       "bonds": [[i, j, 1] for i in range(46) for j in range(i + 1, 46)][:1000]}
+                specs.append(_w_op(big, "V2000", 0)[2:])
+        c["ops"] = ["\t".join(["MF"] + _header_lines_ref(c["header"]) + ["#"] + specs)]
+        out.append(c)
     for _ in range(30 * scale):
         n = rng.choice([2, 3, 5, 9, 20])
         depth = rng.choice([0, 0, 1, 2, 4])
@@ -1030,11 +1104,29 @@ def run_impl(case):
                         elif ops[i] == "D":
                             del sd[ops[i + 1]]
                             i += 2
+                        elif ops[i] == "N":
+                            n = int(ops[i + 1])
+                            pairs = ops[i + 2:i + 2 + 2 * n]
+                            sd = SDFile({pairs[2 * j]: sd[pairs[2 * j + 1]] for j in range(n)})
+                            i += 2 + 2 * n
                         else:
                             setattr(sd[ops[i + 1]].header, ops[i + 2], ops[i + 3])
                             i += 4
                     t = sd.serialize()
                     out.append("ok " + "\t".join(t.split("\n")[:-1] if t else []))
+                elif f[0] == "MF":
+                    from biotite.structure.io.mol import MOLFile
+                    mf = MOLFile()
+                    mf.lines = list(f[1:4])
+                    errs = []
+                    for sp in f[5:]:
+                        w = sp.split()
+                        try:
+                            mf.set_structure(_mk_atoms(_parse_mol(w[2], w[3])), struc.BondType(int(w[1])), None if w[0] == "auto" else w[0])
+                            errs.append("-")
+                        except Exception as e:  # noqa: BLE001
+                            errs.append(type(e).__name__)
+                    out.append("ok " + ";".join(errs) + "\t" + "\t".join(mf.lines))
                 elif f[0] == "SF":
                     sd = SDFile.deserialize(_text(f[1:]))
                     fs = []
@@ -1375,11 +1467,128 @@ def _oracle_sdf_edit(case):
     return v[:3]
 
 
+def _bad_set_structure(f, how, rng_mol):
+    """A set_structure call that must be rejected; returns the exception (or None if it was accepted)."""
+    import numpy as np
+    import biotite.structure as struc
+    try:
+        if how == "v2000-too-many-atoms":
+            a = struc.AtomArray(1000)
+            a.element[:] = "C"
+            a.bonds = struc.BondList(1000)
+            f.set_structure(a, version="V2000")
+        elif how == "v2000-too-many-bonds":
+            a = struc.AtomArray(46)
+            a.element[:] = "C"
+            a.bonds = struc.BondList(46, np.array([(i, j, 1) for i in range(46) for j in range(i + 1, 46)][:1000]))
+            f.set_structure(a, version="V2000")
+        elif how == "coordinate-too-wide":
+            a = _mk_atoms(rng_mol)
+            a.coord[0, 1] = 123456.7
+            f.set_structure(a)
+        elif how == "nan-coordinate":
+            a = _mk_atoms(rng_mol)
+            a.coord[-1, 2] = np.nan
+            f.set_structure(a)
+        elif how == "no-bondlist":
+            a = _mk_atoms(rng_mol)
+            a.bonds = None
+            f.set_structure(a)
+        elif how == "unknown-version":
+            f.set_structure(_mk_atoms(rng_mol), version="V4000")
+        elif how == "stack":
+            f.set_structure(struc.stack([_mk_atoms(rng_mol)] * 2))
+        else:
+            f.set_structure(_mk_atoms(rng_mol), default_bond_type=struc.BondType.QUADRUPLE)
+    except Exception as e:  # noqa: BLE001
+        return e
+    return None
+
+
+BAD_SET = ["v2000-too-many-atoms", "v2000-too-many-bonds", "coordinate-too-wide", "nan-coordinate", "no-bondlist",
+           "unknown-version", "stack", "bad-default-bond"]
+
+
+def _oracle_sdf_rebuild(case):
+    """Records of a parsed SDFile handed to the SDFile constructor under new names (headers touched or not), write -> read."""
+    from biotite.structure.io.mol import Metadata, SDFile, SDRecord
+    recs = case["records"]
+    text = _text([l for r in recs for l in _record_text_lines(r)])
+    v = []
+    with warnings.catch_warnings():
+        warnings.simplefilter("ignore")
+        try:
+            src = SDFile.read(io.StringIO(text))
+            items = {}
+            want = []
+            for new, old, touch in case["mapping"]:
+                if old is None:                          # a freshly built record
+                    r = case["fresh"][new]
+                    rec = SDRecord(header=_mk_header(r["header"]))
+                    rec.set_structure(_mk_atoms(r["mol"]), version=r["ver"])
+                    rec.metadata = Metadata({_key_of(Metadata.Key, tuple(k)): "\n".join(val) for k, val in r["md"]})
+                    ref = r
+                else:
+                    rec = src[old]
+                    ref = next(r for r in recs if r["header"]["mol_name"] == old)
+                    if touch == "header":
+                        rec.header
+                    elif touch == "structure":
+                        rec.get_structure()
+                    elif touch == "metadata":
+                        rec.metadata
+                items[new] = rec
+                want.append((new, ref))
+            g = SDFile(items) if case.get("via", "init") == "init" else SDFile()
+            if case.get("via") == "setitem":
+                for k, rec in items.items():
+                    g[k] = rec
+            buf = io.StringIO()
+            g.write(buf)
+            buf.seek(0)
+            back = SDFile.read(buf)
+            if list(back.keys()) != [n for n, _ in want]:
+                return [("C18/sdf-rebuild/record-names", f"records given as {[n for n, _ in want]} (from {[m[1] for m in case['mapping']]}, "
+                         f"touched {[m[2] for m in case['mapping']]}, via {case.get('via', 'init')}) read as {list(back.keys())}")]
+            for n, r in want:
+                rec = back[n]
+                h0 = _mk_header(dict(r["header"], mol_name=n))
+                if rec.header != h0:
+                    v.append(("C18/sdf-rebuild/header", f"record {n!r}: {h0} read as {rec.header}"))
+                wmd = [(_key_of(Metadata.Key, tuple(k)), "\n".join(val)) for k, val in r["md"]]
+                if list(rec.metadata.items()) != wmd:
+                    v.append(("C18/sdf-rebuild/metadata", f"record {n!r}: {wmd[:2]} read as {list(rec.metadata.items())[:2]}"))
+                v += _compare(r["mol"], rec.get_structure(), 0, CTAB_EXPRESSIBLE, "C18/sdf-rebuild/structure")
+        except Exception as e:  # noqa: BLE001
+            v.append(("C18/sdf-rebuild/raises/" + type(e).__name__, f"{e}"))
+    return v[:3]
+
+
 def _oracle_molfile(case):
     from biotite.structure.io.mol import MOLFile
     f = MOLFile()
     f.header = _mk_header(case["header"])
     f.set_structure(_mk_atoms(case["mol"]), version=case["ver"])
+    # a history of further set_structure calls: rejected ones must leave the file as it was, accepted ones replace the molecule
+    cur = case["mol"]
+    for step in case.get("history", []):
+        if step[0] == "bad":
+            exc = _bad_set_structure(f, step[1], step[2])
+            if exc is None:
+                return [("C18/molfile/invalid-structure-accepted/" + step[1], "set_structure accepted a structure it must reject")]
+            with warnings.catch_warnings():
+                warnings.simplefilter("ignore")
+                try:
+                    v0 = _compare(cur, f.get_structure(), 0, CTAB_EXPRESSIBLE, "C18/molfile/after-rejected-set_structure")
+                except Exception as e:  # noqa: BLE001
+                    v0 = [("C18/molfile/after-rejected-set_structure/molecule-lost",
+                           f"set_structure raised {type(exc).__name__} ({step[1]}); afterwards get_structure raises {type(e).__name__}: {e}")]
+            if v0:
+                return v0
+        else:
+            f.set_structure(_mk_atoms(step[1]), version=step[2])
+            cur = step[1]
+    case = dict(case, mol=cur)
     buf = io.StringIO()
     f.write(buf)
     buf.seek(0)
@@ -1538,6 +1747,8 @@ def oracle(case):
         return _oracle_sdf(case)
     if k == "sdf-edit":
         return _oracle_sdf_edit(case)
+    if k == "sdf-rebuild":
+        return _oracle_sdf_rebuild(case)
     if k == "molfile":
         return _oracle_molfile(case)
     if k == "rdkit":
@@ -1556,7 +1767,7 @@ def nontrivial(case, impl_out):
         return len(m["elems"]) >= 2 or bool(m["bonds"]) or any(m["charges"])
     if k == "sdf":
         return len(case["records"]) >= 2
-    if k == "sdf-edit":
+    if k in ("sdf-edit", "sdf-rebuild"):
         return True
     if "key" in case:
         return sum(x is not None for x in case["key"]) >= 2
